@@ -63,11 +63,13 @@ Arguments mkO {V}. Arguments o_res {V}. Arguments o_hit {V}. Arguments o_neval {
 
 Inductive hop (V : Type) :=
 | Call (d : dir) (v : V)          (* matvec / rmatvec with input v *)
-| Mut (k : nat) (w : V).           (* caller overwrites, in place, the array returned by call k with w *)
-Arguments Call {V}. Arguments Mut {V}.
+| Mut (k : nat) (w : V)            (* caller overwrites, in place, the array RETURNED by call k with w *)
+| MutIn (k : nat) (w : V).         (* caller overwrites, in place, the array of its own that it PASSED AS INPUT to
+                                      call k (and may pass again, as the same object, later) with w *)
+Arguments Call {V}. Arguments Mut {V}. Arguments MutIn {V}.
 
 Definition calls {V} (h : list (hop V)) : list (dir * V) :=
-  flat_map (fun o => match o with Call d v => [(d, v)] | Mut _ _ => [] end) h.
+  flat_map (fun o => match o with Call d v => [(d, v)] | Mut _ _ => [] | MutIn _ _ => [] end) h.
 Definition misses {V} (os : list (obs V)) : nat := length (filter (fun o => negb (o_hit o)) os).
 
 Section Memo.
@@ -117,6 +119,7 @@ Fixpoint run (h : list (hop V)) (s : st) (log : list alias) : list (obs V) * st 
       let rs := run h' s' (log ++ [snd c]) in
       (mkO (snd (fst c)) (is_hit (snd c)) (neval s') (length (store s')) :: fst rs, snd rs)
   | Mut k w :: h' => run h' (mutate (nth k log None) w s) log
+  | MutIn _ _ :: h' => run h' s log     (* inputs are stored as copies (x.copy()): invisible *)
   end.
 
 (* ---- facts about one call *)
@@ -152,7 +155,7 @@ Lemma run_bounded h : forall s log, 1 <= maxn s -> length (store s) <= maxn s ->
   maxn (snd (run h s log)) = maxn s /\
   Forall (fun o => o_len o <= maxn s) (fst (run h s log)).
 Proof.
-  induction h as [|[d v|k w] h IH]; intros s log Hm Hl; cbn [run fst snd].
+  induction h as [|[d v|k w|k w] h IH]; intros s log Hm Hl; cbn [run fst snd].
   - auto.
   - destruct (call_bound d v s Hm Hl) as [Hb Hx].
     destruct (IH (fst (fst (call d v s))) (log ++ [snd (call d v s)])) as (A & B & C);
@@ -161,6 +164,7 @@ Proof.
   - destruct (IH (mutate (nth k log None) w s) log) as (A & B & C);
       rewrite ?mutate_maxn, ?mutate_len; auto.
     rewrite mutate_maxn in *. auto.
+  - apply IH; auto.
 Qed.
 
 Theorem memo_store_bounded h m : 1 <= m ->
@@ -172,11 +176,12 @@ Proof. intros Hm. destruct (run_bounded h (init m) []) as (A & B & C); simpl; au
 Lemma run_neval h : forall s log,
   neval (snd (run h s log)) = neval s + misses (fst (run h s log)).
 Proof.
-  induction h as [|[d v|k w] h IH]; intros s log; cbn [run fst snd].
+  induction h as [|[d v|k w|k w] h IH]; intros s log; cbn [run fst snd].
   - unfold misses; simpl; lia.
   - rewrite IH, call_neval. unfold misses. cbn [filter o_hit].
     destruct (is_hit (snd (call d v s))); simpl; lia.
   - rewrite IH, mutate_neval. reflexivity.
+  - apply IH.
 Qed.
 
 Theorem memo_neval_counts_misses h m :
@@ -266,7 +271,8 @@ Fixpoint run2 (h : list (hop V)) (s : st2) : list (obs V) * st2 :=
       let s' := fst (fst c) in
       let rs := run2 h' s' in
       (mkO (snd (fst c)) (snd c) (neval2 s') (length (store2 s')) :: fst rs, snd rs)
-  | Mut _ _ :: h' => run2 h' s          (* the caller only ever holds copies *)
+  | Mut _ _ :: h' => run2 h' s          (* returned arrays are copies of the stored outputs *)
+  | MutIn _ _ :: h' => run2 h' s        (* stored keys are copies of the inputs *)
   end.
 
 Definition inv2 (l : list entry2) : Prop := Forall (fun e => eb e = op (ed e) (ea e)) l.
@@ -337,11 +343,12 @@ Lemma run2_bounded h : forall s, 1 <= maxn2 s -> length (store2 s) <= maxn2 s ->
   maxn2 (snd (run2 h s)) = maxn2 s /\
   Forall (fun o => o_len o <= maxn2 s) (fst (run2 h s)).
 Proof.
-  induction h as [|[d v|k w] h IH]; intros s Hm Hl; cbn [run2 fst snd].
+  induction h as [|[d v|k w|k w] h IH]; intros s Hm Hl; cbn [run2 fst snd].
   - auto.
   - destruct (call2_bound d v s Hm Hl) as [Hb Hx].
     destruct (IH (fst (fst (call2 d v s)))) as (A & B & C); try rewrite Hx; auto.
     rewrite Hx in *. repeat split; auto.
+  - apply IH; auto.
   - apply IH; auto.
 Qed.
 Theorem memo2_store_bounded h m : 1 <= m ->
@@ -351,21 +358,24 @@ Proof. intros Hm. destruct (run2_bounded h (init2 m)) as (A & B & C); simpl; aut
 
 Lemma run2_neval h : forall s, neval2 (snd (run2 h s)) = neval2 s + misses (fst (run2 h s)).
 Proof.
-  induction h as [|[d v|k w] h IH]; intros s; cbn [run2 fst snd].
+  induction h as [|[d v|k w|k w] h IH]; intros s; cbn [run2 fst snd].
   - unfold misses; simpl; lia.
   - rewrite IH, call2_neval. unfold misses. cbn [filter o_hit].
     destruct (snd (call2 d v s)); simpl; lia.
+  - apply IH.
   - apply IH.
 Qed.
 Theorem memo2_neval_counts_misses h m :
   neval2 (snd (run2 h (init2 m))) = misses (fst (run2 h (init2 m))).
 Proof. rewrite run2_neval. reflexivity. Qed.
 
-(* caller mutations are invisible: the run is the run of the calls alone *)
+(* caller writes — into arrays returned earlier (Mut) AND into arrays of its own that it
+   passed as inputs and may pass again as the same object (MutIn) — are invisible: the
+   run is the run of the calls alone *)
 Theorem memo2_mutation_invisible h s :
   run2 h s = run2 (map (fun c => Call (fst c) (snd c)) (calls h)) s.
 Proof.
-  revert s. induction h as [|[d v|k w] h IH]; intros s; cbn [run2 calls flat_map map app fst snd]; auto.
+  revert s. induction h as [|[d v|k w|k w] h IH]; intros s; cbn [run2 calls flat_map map app fst snd]; auto.
   rewrite IH. reflexivity.
 Qed.
 
@@ -379,13 +389,14 @@ Lemma run2_transparent h : forall s, inv2 (store2 s) -> 1 <= maxn2 s -> length (
   length (store2 (snd (run2 h s))) <= maxn2 s /\
   neval2 (snd (run2 h s)) = neval2 s + misses (fst (run2 h s)).
 Proof.
-  induction h as [|[d v|k w] h IH]; intros s Hi Hm Hl; cbn [run2 calls flat_map fst snd app].
+  induction h as [|[d v|k w|k w] h IH]; intros s Hi Hm Hl; cbn [run2 calls flat_map fst snd app].
   - repeat split; auto; try (unfold misses; simpl; lia).
   - destruct (call2_spec d v s Hi Hm Hl) as (A & B & C & D & _ & _ & x' & X1 & X2 & X3 & _).
     destruct (IH (fst (fst (call2 d v s)))) as (F & G & H & I); try rewrite B; auto.
     rewrite B in *. repeat split; auto.
     + constructor; auto. split; cbn; auto. exists x'. auto.
     + rewrite I, D. unfold misses. cbn [filter o_hit]. destruct (snd (call2 d v s)); simpl; lia.
+  - apply IH; auto.
   - apply IH; auto.
 Qed.
 
@@ -531,4 +542,19 @@ Example memo2_alias_ok :
   map o_res (fst (run2 _ (opQ 2 A32) allclose_q
      [Call Fwd x2; Call Fwd x2; Mut 1 [qi 103; qi 107; qi 101]; Call Fwd x2] (init2 _ 3)))
   = [[qi 3; qi 7; qi 1]; [qi 3; qi 7; qi 1]; [qi 3; qi 7; qi 1]].
+Proof. vm_compute. reflexivity. Qed.
+
+(* matvec x (x a caller array) ; caller rewrites x in place to x' ; matvec x (same object, now x'):
+   the stored key is a copy, the second call is a miss and returns A x' *)
+Example memo2_inkey_ok :
+  map (fun o => (o_res o, o_neval o)) (fst (run2 _ (opQ 2 A32) allclose_q
+     [Call Fwd x2; MutIn 0 [qi 2; qi 5]; Call Fwd [qi 2; qi 5]] (init2 _ 3)))
+  = [([qi 3; qi 7; qi 1], 1); ([qi 12; qi 26; qi 5], 2)].
+Proof. vm_compute. reflexivity. Qed.
+(* square operator, the same vector once as model and once as data: two evaluations, A v and A^H v *)
+Definition A22 : list (list Qc) := [[qi 1; qi 2]; [qi 3; qi 4]].
+Example memo2_square_ok :
+  map (fun o => (o_res o, o_neval o)) (fst (run2 _ (opQ 2 A22) allclose_q
+     [Call Fwd x2; Call Adj x2; Call Fwd x2] (init2 _ 3)))
+  = [([qi 3; qi 7], 1); ([qi 4; qi 6], 2); ([qi 3; qi 7], 2)].
 Proof. vm_compute. reflexivity. Qed.
